@@ -59,7 +59,7 @@ class ParameterHistory:
         ParameterHistory
             The created history.
         """
-        df = pd.read_csv(path)
+        df = pd.read_csv(path, float_precision="round_trip")
         return cls.from_dataframe(df)
 
     loader = from_csv
